@@ -18,7 +18,8 @@ from . import c05, cats_common, cats_json
 RULE = (
 	'consistent random schemas from VERIF_SEED as CATS text parsed by the real parser (1-3 inline templates with every member form, '
 	'1-3 named-inline sites each, chains of unnamed inlines of depth 1-3 with struct attributes size/discriminator/initializes/comparer '
-	'that resolve in the expanded layout, globally unique member names) plus both shipped schema sets; then each of 19 breaking '
+	'that resolve in the expanded layout, globally unique member names; attribute-less structs inlining two or three attribute-carrying '
+	'structs in both orders, sharing the first base, with a further level) plus both shipped schema sets; then each of 19 breaking '
 	'operator families plus the same template arriving twice in one layout (same unnamed inline twice, diamonds of depth 2-3, base that inlines it, '
 	'own member colliding before/after the inline; unnamed plus named inline of one template as the clean control); each of the '
 	'operator families (several variants each) at every applicable site of the parsed AST. A case is one (schema, operator, site); '
@@ -130,6 +131,35 @@ def gen_consistent(rng):
 			previous = (name, pending)
 			links.append(name)
 		chain_tops.append(previous)
+
+	# structs WITHOUT attributes of their own that inline two or three attribute-carrying structs (abstract base + inline headers, in
+	# both orders), several of them sharing the first base, and a further level on top: attribute inheritance must give every struct
+	# its own list - a base must never end up with the attributes of a sibling base
+	if rng.random() < 0.6:
+		def carrier(name, disposition):
+			while True:
+				body = [f'\t{names.member()} = {rng.choice(c05.INT_TYPES)}']
+				header, _ = attribute_block(rng, names, body)
+				if header:
+					blocks.append('\n'.join(header + [f'{disposition}struct {name}'] + body) + '\n')
+					return name
+		bases = [carrier(f'MultiBase{chr(65 + index)}q', 'abstract ') for index in range(rng.choice([1, 2]))]
+		headers = [carrier(f'MultiHdr{chr(65 + index)}q', 'inline ') for index in range(rng.choice([1, 2, 3]))]
+		derived = []
+		for index in range(rng.choice([1, 2, 3])):
+			name = f'MultiDerived{chr(65 + index)}q'
+			parts = [bases[0] if rng.random() < 0.7 else rng.choice(bases)] + rng.sample(headers, rng.choice([1, min(2, len(headers))]))
+			if rng.random() < 0.5:
+				parts.reverse()
+			body = [f'\tinline {part}' for part in parts]
+			insert_line(rng, body, f'\t{names.member()} = {rng.choice(c05.INT_TYPES)}')
+			blocks.append('\n'.join([f'{rng.choice(["", "", "abstract ", "inline "])}struct {name}'] + body) + '\n')
+			derived.append((name, set(parts)))
+		if rng.random() < 0.5:
+			lower, used = rng.choice(derived)
+			others = [header for header in headers if header not in used]
+			body = [f'\tinline {lower}'] + ([f'\tinline {others[0]}'] if others and rng.random() < 0.7 else []) + [f'\t{names.member()} = uint8']
+			blocks.append('\n'.join(['struct MultiTopq'] + body) + '\n')
 
 	templates = []
 	for index in range(rng.randrange(1, 4)):
@@ -704,7 +734,7 @@ def run(ctx):
 		for site in rng.sample(sites, min(len(sites), ctx.scale(60, 1000))):
 			checker.check_break(wire, site, f'shipped:{name}', None, baseline, reference)
 
-	count = ctx.scale(80, 900)
+	count = ctx.scale(62, 750)
 	for index in range(count):
 		text = gen_consistent(rng)
 		label = f'random:{index}'
